@@ -455,7 +455,7 @@ class CliApplication:
         self.syntax = getattr(args, 'syntax', "ios")
         self.output_format = getattr(args, 'output', "")
         self.file_list = getattr(args, 'file', [""])
-        self.diff_method = getattr(args, 'diff_method', "diff")
+        self.diff_method = getattr(args, 'method', "diff")
         self.all_children = getattr(args, 'all_children', False)
         self.unique = getattr(args, 'unique', False)
         self.ipgrep_file = getattr(args, 'ipgrep_file', None)
